@@ -34,6 +34,16 @@ Definition case_agrees (c : c16_case) : bool :=
   end.
 
 (* the property itself, evaluated by the specification on the implementation's edits *)
+(* a sequence of calls observed in one process (each with the edit list that call returned): the
+   positions whose result is not the model's ([compute_edits_seq] = the model of every single call) *)
+Fixpoint seq_disagreements (i : nat) (calls : list c16_case) : list nat :=
+  match calls with
+  | [] => []
+  | c :: calls' => if case_agrees c then seq_disagreements (S i) calls' else i :: seq_disagreements (S i) calls'
+  end.
+Definition seq_agrees (calls : list c16_case) : bool :=
+  match seq_disagreements 0 calls with [] => true | _ => false end.
+
 Definition case_meets_spec (c : c16_case) : bool :=
   let '(Case16 before after got) := c in
   let es := map edit_of_go got in
